@@ -3,7 +3,8 @@
 (* C07: the exponential family of factor files is enumerated completely.   *)
 (* A file is ANY subset of a universe U of candidate lines in which every  *)
 (* line carries a distinct value (so provenance is readable from the       *)
-(* value), combined with user RED1 / RED2 given or not, plus a variant     *)
+(* value; four of them coincide in part with the value that overwrites     *)
+(* them), combined with user RED1 / RED2 given or not, plus a variant     *)
 (* with a duplicated key.  TLC checks on spec/Factors.tla:                 *)
 (*   Respect      user values survive, except the keys fixed by the method *)
 (*   Provenance   step A export defaults = on-site supply factor, step B   *)
@@ -23,23 +24,26 @@ VARIABLES ph, lines, red1, red2
 vars == <<ph, lines, red1, red2>>
 
 L(i, cr, src, dest, step) == Fac(cr, src, dest, step, <<100 + i, 200 + i, 300 + i>>)
+\* lines whose value coincides IN PART with the value that overwrites them (the factors fixed by the method,
+\* (1, 0, 0); the user's RED1): an overwrite that compares before writing must compare all three numbers
+LV(v, cr, src, dest, step) == Fac(cr, src, dest, step, v)
 U == <<
   L(1, "ELECTRICIDAD", "RED", "SUMINISTRO", "A"),
-  L(2, "ELECTRICIDAD", "INSITU", "SUMINISTRO", "A"),
+  LV(<<102, 0, 0>>, "ELECTRICIDAD", "INSITU", "SUMINISTRO", "A"),
   L(3, "ELECTRICIDAD", "INSITU", "A_RED", "A"),
   L(4, "ELECTRICIDAD", "INSITU", "A_NEPB", "B"),
   L(5, "ELECTRICIDAD", "COGEN", "A_RED", "A"),
-  L(6, "EAMBIENTE", "RED", "SUMINISTRO", "A"),
+  LV(<<1000, 0, 306>>, "EAMBIENTE", "RED", "SUMINISTRO", "A"),
   L(7, "EAMBIENTE", "INSITU", "A_RED", "A"),
-  L(8, "TERMOSOLAR", "INSITU", "A_RED", "B"),
+  LV(<<501, 601, 312>>, "RED1", "RED", "SUMINISTRO", "A"),
   L(9, "GASNATURAL", "RED", "SUMINISTRO", "A"),
   L(10, "BIOMASA", "RED", "SUMINISTRO", "A"),
   \* a line of a fuel that is NOT its grid supply factor: with it and without line 9 the set is unusable
   L(11, "GASNATURAL", "INSITU", "SUMINISTRO", "A"),
-  L(12, "RED1", "RED", "SUMINISTRO", "A"),
+  L(8, "TERMOSOLAR", "INSITU", "A_RED", "B"),
   L(13, "ELECTRICIDAD", "INSITU", "A_NEPB", "A"),
   L(14, "ELECTRICIDAD", "INSITU", "A_RED", "B"),
-  L(15, "EAMBIENTE", "INSITU", "SUMINISTRO", "A"),
+  LV(<<1000, 215, 0>>, "EAMBIENTE", "INSITU", "SUMINISTRO", "A"),
   L(16, "EAMBIENTE", "INSITU", "A_NEPB", "B") >>
 UserRed1 == <<501, 601, 701>>
 UserRed2 == <<502, 602, 702>>
